@@ -98,69 +98,92 @@ Copy ==
 
 \* remove_geos = self._detect_noisy_geos(...): pivots the PRE-TEST rows by geo; fewer than MinGeos
 \* geos there => None; otherwise some list of geo ids of that table (numeric: any subset).
-DetectNoisy ==
-  /\ pc = "noisy"
-  /\ LET pre == GeosOf(SelectSeq(data, LAMBDA r : r.period = 0))
-     IN IF Cardinality(pre) < MinGeos
-        THEN S' = [none |-> TRUE, geos |-> {}]
-        ELSE \E s \in SUBSET pre : S' = [none |-> FALSE, geos |-> s]
+\* (Every branch of the code is an action of its own, so that TLC's action coverage is branch coverage.)
+PreGeos == GeosOf(SelectSeq(data, LAMBDA r : r.period = 0))
+DetectNoisyNone ==
+  /\ pc = "noisy" /\ Cardinality(PreGeos) < MinGeos
+  /\ S' = [none |-> TRUE, geos |-> {}]
+  /\ pc' = "rmgeos"
+  /\ UNCHANGED <<input, caller, data, analysis, D, corr>>
+DetectNoisySome ==
+  /\ pc = "noisy" /\ Cardinality(PreGeos) >= MinGeos
+  /\ \E s \in SUBSET PreGeos : S' = [none |-> FALSE, geos |-> s]
   /\ pc' = "rmgeos"
   /\ UNCHANGED <<input, caller, data, analysis, D, corr>>
 
 \* if remove_geos: self._data = self._data[~ self._data[geo].isin(remove_geos)]
 DropLast(set) == IF set = {} THEN {} ELSE set \ {Max(set)}
 RemoveGeos ==
-  /\ pc = "rmgeos"
+  /\ pc = "rmgeos" /\ ~S.none /\ S.geos # {}
   /\ LET gone == IF Variant = "all_but_last_geo" THEN DropLast(S.geos) ELSE S.geos
-     IN data' = IF S.none \/ S.geos = {} THEN data ELSE SelectSeq(data, LAMBDA r : r.geo \notin gone)
+     IN data' = SelectSeq(data, LAMBDA r : r.geo \notin gone)
   /\ pc' = "agg1"
   /\ UNCHANGED <<input, caller, analysis, S, D, corr>>
+KeepGeos ==      \* None and [] are both falsy
+  /\ pc = "rmgeos" /\ (S.none \/ S.geos = {})
+  /\ pc' = "agg1"
+  /\ UNCHANGED <<input, caller, data, analysis, S, D, corr>>
 
 \* self._create_analysis_data(): ValueError unless both group ids are present; pivot_table(sum)
 Aggregate(next) ==
-  /\ IF BothGroups(data)
-     THEN /\ analysis' = TotalsOf(data)
-          /\ pc' = next
-          /\ caller' = IF Variant = "inplace"   \* relabels the group column of the caller's object
-                       THEN [j \in 1..Len(caller) |-> [caller[j] EXCEPT !.grp = "u"]] ELSE caller
-     ELSE pc' = "error" /\ UNCHANGED <<analysis, caller>>
+  /\ BothGroups(data)
+  /\ analysis' = TotalsOf(data)
+  /\ pc' = next
+  /\ caller' = IF Variant = "inplace"   \* seeded error: relabels the group column of the caller's object
+               THEN [j \in 1..Len(caller) |-> [caller[j] EXCEPT !.grp = "u"]] ELSE caller
   /\ UNCHANGED <<input, data, S, D, corr>>
+AggregateRaises == ~BothGroups(data) /\ pc' = "error" /\ UNCHANGED <<input, caller, data, analysis, S, D, corr>>
 Aggregate1 == pc = "agg1" /\ Aggregate("outliers")
+Aggregate1Raises == pc = "agg1" /\ AggregateRaises
 
 \* remove_dates = self._detect_outliers(...): first the correlation test (raises below MinObs
 \* observations), then a list of index labels of the CURRENT analysis table, each at most once
 \* (numeric: any such list, in any order, possibly empty).
 DetectOutliers ==
-  /\ pc = "outliers"
-  /\ IF Cardinality(analysis) < MinObs
-     THEN pc' = "error" /\ UNCHANGED D
-     ELSE /\ \E d \in SetToAllKPermutations({a.date : a \in analysis}) : D' = d
-          /\ pc' = "rmdates"
+  /\ pc = "outliers" /\ Cardinality(analysis) >= MinObs
+  /\ \E d \in SetToAllKPermutations({a.date : a \in analysis}) : D' = d
+  /\ pc' = "rmdates"
   /\ UNCHANGED <<input, caller, data, analysis, S, corr>>
+DetectOutliersRaises ==
+  /\ pc = "outliers" /\ Cardinality(analysis) < MinObs
+  /\ pc' = "error"
+  /\ UNCHANGED <<input, caller, data, analysis, S, D, corr>>
 
 \* if remove_dates: self._data = self._data[~ self._data[date].isin(remove_dates)]; re-aggregate
 RemoveDates ==
-  /\ pc = "rmdates"
-  /\ IF D = <<>>
-     THEN pc' = "corr" /\ UNCHANGED <<data, analysis>>
-     ELSE IF Variant = "analysis_only_dates"
-          THEN /\ analysis' = {a \in analysis : a.date \notin Range(D)}
-               /\ pc' = "corr" /\ UNCHANGED data
-          ELSE /\ data' = SelectSeq(data, LAMBDA r : r.date \notin Range(D))
-               /\ pc' = IF Variant = "skip_reaggregate" THEN "corr" ELSE "agg2"
-               /\ UNCHANGED analysis
+  /\ pc = "rmdates" /\ D # <<>>
+  /\ IF Variant = "analysis_only_dates"
+     THEN /\ analysis' = {a \in analysis : a.date \notin Range(D)}
+          /\ pc' = "corr" /\ UNCHANGED data
+     ELSE /\ data' = SelectSeq(data, LAMBDA r : r.date \notin Range(D))
+          /\ pc' = IF Variant = "skip_reaggregate" THEN "corr" ELSE "agg2"
+          /\ UNCHANGED analysis
   /\ UNCHANGED <<input, caller, S, D, corr>>
+KeepDates ==
+  /\ pc = "rmdates" /\ D = <<>>
+  /\ pc' = "corr"
+  /\ UNCHANGED <<input, caller, data, analysis, S, D, corr>>
 Aggregate2 == pc = "agg2" /\ Aggregate("corr")
+Aggregate2Raises == pc = "agg2" /\ AggregateRaises
 
 \* diagnostics['corr_test'] = self._correlation_test(...): raises below MinObs observations
 CorrTest ==
-  /\ pc = "corr"
-  /\ IF Cardinality(analysis) < MinObs
-     THEN pc' = "error" /\ UNCHANGED corr
-     ELSE pc' = "done" /\ corr' \in BOOLEAN
+  /\ pc = "corr" /\ Cardinality(analysis) >= MinObs
+  /\ pc' = "done" /\ corr' \in BOOLEAN
   /\ UNCHANGED <<input, caller, data, analysis, S, D>>
+CorrTestRaises ==
+  /\ pc = "corr" /\ Cardinality(analysis) < MinObs
+  /\ pc' = "error"
+  /\ UNCHANGED <<input, caller, data, analysis, S, D, corr>>
 
-Next == Copy \/ DetectNoisy \/ RemoveGeos \/ Aggregate1 \/ DetectOutliers \/ RemoveDates \/ Aggregate2 \/ CorrTest
+Next == \/ Copy
+        \/ DetectNoisyNone \/ DetectNoisySome
+        \/ RemoveGeos \/ KeepGeos
+        \/ Aggregate1 \/ Aggregate1Raises
+        \/ DetectOutliers \/ DetectOutliersRaises
+        \/ RemoveDates \/ KeepDates
+        \/ Aggregate2 \/ Aggregate2Raises
+        \/ CorrTest \/ CorrTestRaises
 Spec == Init /\ [][Next]_vars /\ WF_vars(Next)
 
 \* ======================================================================== properties
@@ -185,10 +208,4 @@ AnalysisFresh == (pc \in {"outliers", "rmdates"}) => analysis = TotalsOf(data)
 FittedNonDegenerate == Fitted => BothGroups(data) /\ Cardinality(analysis) >= MinObs
 Terminates == <>(pc \in {"done", "error"})
 
-\* ---- vacuity: reachable situations the run must contain (checked as negated invariants by the driver)
-SomeNone == ~(Fitted /\ S.none)
-SomeNoisy == ~(Fitted /\ S.geos # {} /\ D = <<>>)
-SomeOutliers == ~(Fitted /\ S.geos = {} /\ D # <<>>)
-SomeBoth == ~(Fitted /\ S.geos # {} /\ Len(D) >= 2)
-SomeError == ~(pc = "error")
 =============================================================================
